@@ -386,6 +386,7 @@ pub fn case(ctx: &mut Ctx, idx: u64) {
                     cl,
                     cl_setting: None,
                     lazer_via_setter: n_cfg % 2 == 1,
+                    cl_repr: (n_cfg % 3) as u8,
                     ticks: [None; 3],
                     passed: None,
                 };
@@ -498,6 +499,7 @@ fn via_map(ctx: &mut Ctx, rng: &mut Rng) {
             cl,
             cl_setting: if mode == GameMode::Osu && cl && lazer != Some(false) { *rng.pick(&[None, Some(true), Some(false)]) } else { None },
             lazer_via_setter: rng.chance(0.5),
+            cl_repr: rng.below(3) as u8,
             ticks: [None; 3],
             passed: None,
         };
